@@ -157,6 +157,11 @@ impl<'a> Replies<'a> {
     pub fn print_line(&self, text: &str) -> Step {
         Step::Packet(self.enc("PrintLine", &Val::Struct(vec![Val::Int(1), Val::Text(text.into())])), "print-line".into())
     }
+    pub fn print_text_block(&self, lines: &[&str]) -> Step {
+        let tl = Val::Struct(vec![Val::List(lines.iter().map(|l| Val::Text((*l).into())).collect()), Val::None]);
+        let tlv = Val::Struct(vec![Val::some(Val::Int(1)), Val::some(tl)]);
+        Step::Packet(self.enc("PrintTextBlock", &Val::Struct(vec![Val::some(tlv)])), "print-text-block".into())
+    }
     pub fn system_info(&self, serial: &str, terminal_id: &str) -> Step {
         let v = Val::Struct(vec![Val::Text(serial.into()), Val::Text("GER-APP-v2.0.9   ".into()), Val::Text(terminal_id.into()), Val::Text("24.4".into())]);
         Step::Packet(self.enc("feig::CVendFunctionsEnhancedSystemInformationCompletion", &v), "system-info".into())
